@@ -769,7 +769,9 @@ def det(m):
     :SymPy: supported
     """
     if m.dtype.kind == 'O':
-        return Matrix(m).det()
+        # division-free algorithm: the default (Bareiss) leaves quotients whose numerator and
+        # denominator vanish together, which cannot be evaluated at those points
+        return Matrix(m).det(method='berkowitz')
     else:
         return np.linalg.det(m)
 
